@@ -5,6 +5,7 @@ from ..loader import AnalysisError, norm_stmt, walk_own
 from ..rules_flow import forwarding
 from .common import add_fwd
 from .common import check as ob
+from ..canon import Canon, localise, each, unpacked
 
 EXPLANATION = (
     'Decides: (a) every attribute read on a Fragment/FragmentMatch (or any repository class) in score.py resolves '
@@ -102,8 +103,9 @@ def mode_exhaustive(ctx, rep, clause):
     ob(rep, 'EXH', gi.fq, 'the window computation distinguishes one of the two validated types, the other is the '
        'default', len(h) == 1 and h <= {'ppm', 'th'}, f'{sorted(h)}', f'distinguishes {sorted(h)}', gi.loc(), clause)
     # peaks are re-ordered together with their intensities
-    txt = ' '.join(norm_stmt(s) for s in gf.node.body)
-    ok = 'zip(*sorted(zip(mz_spectra, intensity_spectra), key=lambda x: x[0]))' in txt
+    cgf = Canon(gf.node)
+    txt = ' '.join(cgf.text(s) for s in gf.node.body)
+    ok = 'zip(*sorted(zip(mz_spectra, intensity_spectra), key=lambda arg0: arg0[0]))' in txt
     ob(rep, 'SIB-order', gf.fq, 'peaks and intensities are sorted together by m/z', ok,
        'one sort over (mz, intensity) pairs', 'peaks are no longer sorted together with their intensities: matched '
        'intensities would belong to other peaks', gf.loc(), clause)
@@ -134,7 +136,7 @@ def match_indexing(ctx, rep, clause):
                f.loc(n), clause)
     rep.floor('SIB-index', 'FragmentMatch constructions', k, 2)
     srt = [n for n in walk_own(f.node) if isinstance(n, ast.Assign) and norm_stmt(n.targets[0]) == src and
-           isinstance(n.value, ast.Call) and norm_stmt(n.value.func) == 'sorted' and 'x.mz' in norm_stmt(n.value)]
+           isinstance(n.value, ast.Call) and norm_stmt(n.value.func) == 'sorted' and 'arg0.mz' in Canon(f.node).text(n.value)]
     ob(rep, 'SIB-index', f.fq, f'`{src}` is the list sorted by m/z', len(srt) == 1, 'sorted(..., key=lambda x: x.mz)',
        'the list the theoretical m/z values come from is not sorted by m/z (get_matched_indices needs sorted input)',
        f.loc(), clause)
@@ -144,7 +146,9 @@ def closest_metric(ctx, rep, clause):
     """in 'closest' mode the minimised quantity is the absolute m/z distance |theoretical - observed| of each
     candidate, computed once (a per-candidate rescaling changes which peak is the closest)"""
     program = ctx.program
-    f = program.func(f'{SC}:match_spectra')
+    f = localise(program.func(f'{SC}:match_spectra'),
+                 {'i': each(lambda t: t.startswith('enumerate(get_matched_indices('), (0,)),
+                  'indexes': each(lambda t: t.startswith('enumerate(get_matched_indices('), (1,))})
     blk = None
     for n in walk_own(f.node):
         if isinstance(n, ast.If) and norm_stmt(n.test) == "mode == 'closest'":
@@ -174,9 +178,11 @@ def closest_metric(ctx, rep, clause):
     for n in walk_own(f.node):
         if isinstance(n, ast.If) and norm_stmt(n.test) == "mode == 'largest'":
             lg = n
-    txt = ' '.join(norm_stmt(s_) for s_ in lg.body) if lg is not None else ''
+    cl = Canon(f.node)
+    maxes = [norm_stmt(cl.resolve(c_.args[0])) for s_ in (lg.body if lg is not None else []) for c_ in ast.walk(s_)
+             if isinstance(c_, ast.Call) and norm_stmt(c_.func) == 'max' and c_.args]
     ob(rep, 'SIB-metric', f.fq, "'largest' takes the maximum intensity inside the window",
-       'intensity_spectra[indexes[0]:indexes[1]]' in txt and 'max(' in txt, 'max over the window slice',
+       maxes == ['intensity_spectra[indexes[0]:indexes[1]]'], 'max over the window slice',
        "the 'largest' branch no longer maximises the intensities of exactly the window", f.loc(lg) if lg is not None
        else f.loc(), clause)
 
